@@ -33,6 +33,7 @@ import (
 	"github.com/bronlabs/bron-crypto/pkg/base/nt/num"
 	"github.com/bronlabs/bron-crypto/pkg/base/nt/numct"
 	"github.com/bronlabs/bron-crypto/pkg/base/nt/znstar"
+	"github.com/bronlabs/bron-crypto/pkg/encryption"
 	"github.com/bronlabs/bron-crypto/pkg/encryption/elgamal"
 	"github.com/bronlabs/bron-crypto/pkg/encryption/paillier"
 
@@ -326,6 +327,7 @@ type pop struct {
 	k       byte
 	i, j, l int
 	a, b    *big.Int
+	m       *big.Int // F/f/G/g: modulus M of the ring Z_M the plaintext argument is carried in
 }
 
 func (o pop) sk() bool { return o.k >= 'a' && o.k <= 'z' }
@@ -344,6 +346,10 @@ func (o pop) text() string {
 		return fmt.Sprintf("%c,%d", o.k, o.i)
 	case 'X':
 		return fmt.Sprintf("X,%s", zh(o.a))
+	case 'F', 'f':
+		return fmt.Sprintf("%c,%s,%s,%s", o.k, zh(o.m), zh(o.a), zh(o.b))
+	case 'G', 'g':
+		return fmt.Sprintf("%c,%d,%s,%s", o.k, o.i, zh(o.m), zh(o.a))
 	}
 	panic("bad op")
 }
@@ -365,6 +371,10 @@ func parsePop(s string) pop {
 		o.i = at(1)
 	case 'X':
 		o.a = uz(f[1])
+	case 'F', 'f':
+		o.m, o.a, o.b = uz(f[1]), uz(f[2]), uz(f[3])
+	case 'G', 'g':
+		o.i, o.m, o.a = at(1), uz(f[2]), uz(f[3])
 	default:
 		panic("bad op " + s)
 	}
@@ -379,12 +389,16 @@ func popsText(ops []pop) string {
 	return strings.Join(p, ";")
 }
 
-func producesReg(k byte) bool { return k != 'D' && k != 'O' }
+func producesReg(k byte) bool { return k != 'D' && k != 'O' && k != 'G' && k != 'g' }
 
 func opName(k byte) string {
 	switch k {
 	case 'E', 'e':
 		return "enc"
+	case 'F', 'f':
+		return "enc-ring"
+	case 'G', 'g':
+		return "shift-ring"
 	case 'A', 'a', 'M', 'm':
 		return "op"
 	case 'S', 's':
@@ -418,6 +432,18 @@ func (k *pkey) plaintext(x *big.Int) (*paillier.Plaintext, error) {
 		return nil, err
 	}
 	return paillier.NewPlaintextFromNat(n, k.nplus)
+}
+
+// ringPlaintext: the value x carried in the ring Z_M (NewPlaintextFromNat with the caller's modulus)
+func ringPlaintext(x, M *big.Int) (*paillier.Plaintext, error) {
+	if x.Sign() < 0 || M.Sign() <= 0 {
+		return nil, fmt.Errorf("out of range")
+	}
+	n, err := num.N().FromBig(x)
+	if err != nil {
+		return nil, err
+	}
+	return paillier.NewPlaintextFromNat(n, natPlus(M))
 }
 
 func (k *pkey) nonce(r *big.Int, sk bool) (*paillier.Nonce, error) {
@@ -462,6 +488,34 @@ func runPaillierImpl(k *pkey, ops []pop) []string {
 					c, err = k.sk.EncryptWithNonce(pt, nn)
 				} else {
 					c, err = k.pk.EncryptWithNonce(pt, nn)
+				}
+			case 'F', 'f':
+				var pt *paillier.Plaintext
+				var nn *paillier.Nonce
+				if pt, err = ringPlaintext(o.a, o.m); err != nil {
+					return
+				}
+				if nn, err = k.nonce(o.b, o.sk()); err != nil {
+					return
+				}
+				if o.sk() {
+					c, err = k.sk.EncryptWithNonce(pt, nn)
+				} else {
+					c, err = k.pk.EncryptWithNonce(pt, nn)
+				}
+			case 'G', 'g':
+				var pt *paillier.Plaintext
+				if pt, err = ringPlaintext(o.a, o.m); err != nil {
+					return
+				}
+				var sc *paillier.Ciphertext
+				if o.sk() {
+					sc, err = k.sk.Shift(regs[o.i], pt)
+				} else {
+					sc, err = k.pk.Shift(regs[o.i], pt)
+				}
+				if err == nil {
+					tok = zh(ctBig(sc))
 				}
 			case 'A':
 				c, err = k.pk.CiphertextOp(regs[o.i], regs[o.j])
@@ -548,13 +602,37 @@ func runPaillierImpl(k *pkey, ops []pop) []string {
 // runPaillierOracle computes the expected tokens from tracked (plaintext, nonce) pairs with
 // math/big only: every ciphertext must be the textbook encryption of the combined
 // plaintext under the combined nonce, decryption returns the plaintext, opening both.
-func runPaillierOracle(k *pkey, ops []pop) []string {
+func runPaillierOracle(k *pkey, ops []pop) (outs, alt []string) {
 	type tr struct{ m, r *big.Int }
 	var regs []tr
-	outs := make([]string, len(ops))
+	outs = make([]string, len(ops))
+	alt = make([]string, len(ops)) // alt[n] != "": a second acceptable implementation token (lenient refusals)
 	for n, o := range ops {
 		var t *tr
 		switch o.k {
+		case 'F', 'f':
+			// plaintext value a carried in Z_M: the public path accepts M <= N, the secret-key path M = N
+			okRing := o.m.Sign() > 0 && o.m.Cmp(k.N) <= 0
+			if o.k == 'f' {
+				okRing = o.m.Cmp(k.N) == 0
+			}
+			if okRing && o.a.Sign() >= 0 && o.a.Cmp(o.m) < 0 && o.b.Sign() > 0 && new(big.Int).GCD(nil, nil, o.b, k.N).Cmp(one) == 0 {
+				t = &tr{new(big.Int).Set(o.a), bmod(o.b, k.N)}
+			}
+		case 'G', 'g':
+			// Shift by a plaintext carried in Z_M: as coded refused unless M = N; accepting it with the
+			// correct result would be just as good (one-sided), so both are admitted when M < N
+			x := regs[o.i]
+			outs[n] = "ERR"
+			if o.m.Sign() > 0 && o.a.Sign() >= 0 && o.a.Cmp(o.m) < 0 && o.m.Cmp(k.N) <= 0 {
+				v := zh(k.textbook(bmod(new(big.Int).Add(x.m, o.a), k.N), x.r))
+				if o.m.Cmp(k.N) == 0 {
+					outs[n] = v
+				} else {
+					alt[n] = v
+				}
+			}
+			continue
 		case 'E', 'e':
 			m := k.residue(o.a)
 			if m != nil && o.b.Sign() > 0 && new(big.Int).GCD(nil, nil, o.b, k.N).Cmp(one) == 0 {
@@ -611,7 +689,7 @@ func runPaillierOracle(k *pkey, ops []pop) []string {
 			regs = append(regs, *t)
 		}
 	}
-	return outs
+	return outs, alt
 }
 
 // pruneOps keeps op n and the ops its registers depend on (shrinking).
@@ -634,7 +712,7 @@ func pruneOps(ops []pop, n int) []pop {
 			rs = []int{o.i, o.j}
 		case 'M', 'm':
 			rs = []int{o.i, o.j, o.l}
-		case 'S', 's', 'H', 'h', 'R', 'r', 'I', 'i', 'D', 'O':
+		case 'S', 's', 'H', 'h', 'R', 'r', 'I', 'i', 'D', 'O', 'G', 'g':
 			rs = []int{o.i}
 		}
 		for _, r := range rs {
@@ -660,7 +738,7 @@ func pruneOps(ops []pop, n int) []pop {
 			o.i, o.j = newReg[o.i], newReg[o.j]
 		case 'M', 'm':
 			o.i, o.j, o.l = newReg[o.i], newReg[o.j], newReg[o.l]
-		case 'S', 's', 'H', 'h', 'R', 'r', 'I', 'i', 'D', 'O':
+		case 'S', 's', 'H', 'h', 'R', 'r', 'I', 'i', 'D', 'O', 'G', 'g':
 			o.i = newReg[o.i]
 		}
 		out = append(out, o)
@@ -824,6 +902,63 @@ func (k *pkey) pickWide(r *vh.Rng, thorough bool, extra int) []*big.Int {
 	return out
 }
 
+var secpQ, _ = new(big.Int).SetString("fffffffffffffffffffffffffffffffebaaedce6af48a03bbfd25e8cd0364141", 16)
+
+// rings: moduli M of rings Z_M a plaintext may be carried in. ok: M <= N (accepted by the public-key
+// Representative / EncryptWithNonce, which must encrypt the VALUE: 1 + m*N, not 1 + m*M);
+// tooBig: M > N (refused).
+func (k *pkey) rings() (ok, tooBig []*big.Int) {
+	m61 := new(big.Int).Sub(new(big.Int).Lsh(one, 61), one)
+	ok = []*big.Int{new(big.Int).Set(k.N), new(big.Int).Sub(k.N, one), m61, secpQ, new(big.Int).Mul(secpQ, secpQ),
+		big.NewInt(2), big.NewInt(3), big.NewInt(65537)}
+	tooBig = []*big.Int{new(big.Int).Add(k.N, one), new(big.Int).Add(k.N, new(big.Int).Lsh(one, 64)), new(big.Int).Lsh(k.N, 1)}
+	return ok, tooBig
+}
+
+func genRingValue(r *vh.Rng, M *big.Int) *big.Int {
+	switch r.Intn(5) {
+	case 0:
+		return new(big.Int).Mod(one, M)
+	case 1, 2:
+		return new(big.Int).Sub(M, one)
+	default:
+		return r.BigBelow(M)
+	}
+}
+
+func (k *pkey) genRing(r *vh.Rng) *big.Int {
+	ok, tooBig := k.rings()
+	if r.Intn(8) == 0 {
+		return tooBig[r.Intn(len(tooBig))]
+	}
+	return ok[r.Intn(len(ok))]
+}
+
+// ringSeq: the fixed sequence exercising plaintexts carried in rings Z_M on every operation that
+// takes a plaintext, then Decrypt / Open of every accepted encryption
+func (k *pkey) ringSeq(r *vh.Rng) []pop {
+	ok, tooBig := k.rings()
+	var ops []pop
+	for _, M := range ok {
+		ops = append(ops, pop{k: 'F', m: M, a: new(big.Int).Sub(M, one), b: k.genNonce(r)})
+	}
+	nm1 := new(big.Int).Sub(k.N, one)
+	ops = append(ops,
+		pop{k: 'F', m: secpQ, a: r.BigBelow(secpQ), b: k.genNonce(r)},                          // 8
+		pop{k: 'f', m: k.N, a: nm1, b: k.genNonce(r)},                                           // 9
+		pop{k: 'f', m: nm1, a: big.NewInt(5), b: big.NewInt(2)},                                 // 10: not in Z_N, refused on the sk path
+		pop{k: 'F', m: tooBig[0], a: new(big.Int).Set(k.N), b: big.NewInt(2)},                   // 11: M > N refused
+		pop{k: 'F', m: tooBig[2], a: new(big.Int).Add(k.N, big.NewInt(5)), b: big.NewInt(2)},    // 12: M > N refused
+		pop{k: 'G', i: 0, m: k.N, a: big.NewInt(1)}, pop{k: 'g', i: 0, m: k.N, a: nm1},
+		pop{k: 'G', i: 0, m: nm1, a: big.NewInt(3)}, pop{k: 'g', i: 1, m: secpQ, a: big.NewInt(7)},
+		pop{k: 'G', i: 2, m: tooBig[0], a: new(big.Int).Set(k.N)})
+	for i := 0; i <= 9; i++ {
+		ops = append(ops, pop{k: 'D', i: i})
+	}
+	ops = append(ops, pop{k: 'O', i: 1}, pop{k: 'O', i: 3}, pop{k: 'O', i: 9})
+	return ops
+}
+
 // genSeq builds one random operation sequence of at most maxLen ciphertext operations,
 // followed by decrypt/open of the last register and of one earlier register.
 func (k *pkey) genSeq(r *vh.Rng, maxLen int, cheap bool) []pop {
@@ -844,7 +979,13 @@ func (k *pkey) genSeq(r *vh.Rng, maxLen int, cheap bool) []pop {
 	add(pop{k: path('E'), a: k.genPlain(r), b: k.genNonce(r)})
 	n := 1 + r.Intn(maxLen)
 	for len(ops) < n {
-		switch c := r.Intn(20); {
+		switch c := r.Intn(23); {
+		case c >= 22:
+			M := k.genRing(r)
+			add(pop{k: path('G'), i: r.Intn(nreg), m: M, a: genRingValue(r, M)})
+		case c >= 20:
+			M := k.genRing(r)
+			add(pop{k: path('F'), m: M, a: genRingValue(r, M), b: k.genNonce(r)})
 		case c < 4:
 			add(pop{k: path('E'), a: k.genPlain(r), b: k.genNonce(r)})
 		case c < 7:
@@ -894,16 +1035,24 @@ type testCase struct {
 }
 
 func paillierSeqCase(id string, k *pkey, ops []pop) *testCase {
+	orc, alt := runPaillierOracle(k, ops)
 	tc := &testCase{
 		line:   fmt.Sprintf("P %s %s %s %s", id, zh(k.p), zh(k.q), popsText(ops)),
 		class:  fmt.Sprintf("paillier-seq/%s-%d", k.flavour, k.bits),
 		impl:   runPaillierImpl(k, ops),
-		oracle: runPaillierOracle(k, ops),
-		what:   "C16_enc_add/enc_scale/enc_shift/rerandomise/decrypt_enc/open_enc/sk_ops_equal_pk_ops (model vs implementation vs textbook)",
+		oracle: orc,
+		what:   "C16_enc_add/enc_scale/enc_shift/rerandomise/decrypt_enc(_ring)/open_enc/sk_ops_equal_pk_ops (model vs implementation vs textbook)",
+	}
+	for n := range ops {
+		// lenient refusal: the operation was accepted with the correct result where the code (and the
+		// model) refuse -- counted as the refusal
+		if alt[n] != "" && tc.impl[n] == alt[n] {
+			tc.impl[n] = "ERR"
+		}
 	}
 	for _, o := range ops {
 		nm := "paillier-" + opName(o.k)
-		if producesReg(o.k) && o.k != 'X' {
+		if (producesReg(o.k) && o.k != 'X') || o.k == 'G' || o.k == 'g' {
 			if o.sk() {
 				nm += "-sk"
 			} else {
@@ -1082,6 +1231,52 @@ func (k *pkey) qCase(id, op string, args ...*big.Int) *testCase {
 				impl = zh(ctBig(c))
 			}
 			oracle = zh(new(big.Int).Exp(args[0], N, k.N2))
+		case "repM": // Representative of a plaintext carried in Z_M: (1+N)^m, i.e. 1 + m*N, for M <= N; refused for M > N
+			M, m := args[0], args[1]
+			oracle = "ERR"
+			if M.Sign() > 0 && M.Cmp(N) <= 0 && m.Sign() >= 0 && m.Cmp(M) < 0 {
+				g := new(big.Int).Add(N, one)
+				oracle = zh(g.Exp(g, m, k.N2))
+			}
+			var p *paillier.Plaintext
+			if p, err = ringPlaintext(m, M); err != nil {
+				return
+			}
+			var c *paillier.Ciphertext
+			if c, err = k.pk.Representative(p); err == nil {
+				impl = zh(ctBig(c))
+			}
+		case "paddM", "pscaleM": // plaintext algebra with an operand carried in Z_M: as coded refused unless M = N
+			M, x := args[0], args[1]
+			var correct *big.Int
+			if op == "paddM" {
+				correct = bmod(new(big.Int).Add(x, bmod(args[2], N)), N)
+			} else {
+				correct = bmod(new(big.Int).Mul(x, args[2]), N)
+			}
+			oracle = "ERR"
+			if M.Cmp(N) == 0 {
+				oracle = zh(correct)
+			}
+			var p, out *paillier.Plaintext
+			if p, err = ringPlaintext(x, M); err != nil {
+				return
+			}
+			if op == "paddM" {
+				out, err = k.pk.PlaintextOp(p, pt(args[2]))
+			} else {
+				var z *num.Int
+				if z, err = num.Z().FromBig(args[2]); err != nil {
+					return
+				}
+				out, err = k.pk.PlaintextScalarOp(p, z)
+			}
+			if err == nil {
+				impl = zh(out.Value().Big())
+				if M.Cmp(N) < 0 && out.Modulus().Big().Cmp(N) == 0 && impl == zh(correct) {
+					err = fmt.Errorf("accepted with the correct result: counted as the (one-sided) refusal")
+				}
+			}
 		default:
 			panic("bad q op " + op)
 		}
@@ -1227,6 +1422,33 @@ func pubKeyCase(id string, minlen int, N *big.Int) *testCase {
 		oracle = "ERR"
 	}
 	return single(line, "paillier-keyfloor", "paillier-new-public-key", "key-size floor of newPublicKey", impl, oracle)
+}
+
+// encryption.Encrypt (nonce sampled by the library from the seeded reader), plaintext carried in Z_M:
+// the ciphertext must be the textbook encryption of the value under the returned nonce
+func (k *pkey) encryptSampledCase(id string, M, m *big.Int, r *vh.Rng) *testCase {
+	impl, line := "", ""
+	var err error
+	var rr *big.Int
+	pan := vh.Safely(func() {
+		var pt *paillier.Plaintext
+		if pt, err = ringPlaintext(m, M); err != nil {
+			return
+		}
+		var c *paillier.Ciphertext
+		var nn *paillier.Nonce
+		if c, nn, err = encryption.Encrypt(pt, k.pk, r); err == nil {
+			impl = zh(ctBig(c))
+			rr = nn.Value().Value().Big()
+		}
+	})
+	impl = errTok(err, pan, func() string { return impl })
+	if rr == nil {
+		rr = big.NewInt(1)
+	}
+	line = fmt.Sprintf("T %s %s %s %s", id, zh(k.N), zh(m), zh(rr))
+	oracle := zh(k.textbook(m, rr))
+	return single(line, "paillier-encrypt-sampled", "paillier-encrypt-sampled-ring", "C16_decrypt_enc_ring / C16_enc_textbook: Encrypt = (1+N)^m r^N mod N^2 for a plaintext carried in Z_M, M <= N", impl, oracle)
 }
 
 // Decrypt must refuse a ciphertext of another key (group membership check)
@@ -2383,6 +2605,39 @@ func main() {
 		}
 		cases = append(cases, paillierSeqCase(fmt.Sprintf("%s%d.fixed", k.flavour, k.bits), k, fixed))
 
+		// plaintexts carried in rings Z_M (M = N, N-1, 2^61-1, secp256k1 q, q^2, 2, 3, 65537; M > N refused)
+		if thorough || k.bits < 3072 {
+			rr := vh.NewRng(a.Seed, "C16", stream+"/paillier-ring", ki)
+			okM, bigM := k.rings()
+			ringOps := k.ringSeq(rr)
+			full := thorough || k.flavour == "general"
+			if !full {
+				// quick tier, other keys: a shorter sequence (M = N-1, q, q^2, 2; one refusal)
+				ringOps = nil
+				for _, M := range []*big.Int{okM[1], okM[3], okM[4], okM[5]} {
+					ringOps = append(ringOps, pop{k: 'F', m: M, a: new(big.Int).Sub(M, one), b: k.genNonce(rr)})
+				}
+				ringOps = append(ringOps, pop{k: 'F', m: bigM[0], a: new(big.Int).Set(k.N), b: big.NewInt(2)},
+					pop{k: 'G', i: 0, m: okM[1], a: big.NewInt(3)}, pop{k: 'g', i: 1, m: k.N, a: big.NewInt(3)},
+					pop{k: 'D', i: 0}, pop{k: 'D', i: 1}, pop{k: 'D', i: 2}, pop{k: 'D', i: 3}, pop{k: 'O', i: 1})
+			}
+			cases = append(cases, paillierSeqCase(fmt.Sprintf("%s%d.ring", k.flavour, k.bits), k, ringOps))
+			idr := func(s string, i int) string { return fmt.Sprintf("%s%d.%s%d", k.flavour, k.bits, s, i) }
+			for i, M := range append(append([]*big.Int{}, okM...), bigM...) {
+				cases = append(cases, k.qCase(idr("repM", i), "repM", M, new(big.Int).Sub(M, one)))
+			}
+			for i, M := range []*big.Int{okM[0], okM[1], okM[3]} {
+				x := genRingValue(rr, M)
+				cases = append(cases, k.qCase(idr("paddM", i), "paddM", M, x, k.genPlain(rr)), k.qCase(idr("pscaleM", i), "pscaleM", M, x, k.genScalar(rr, true)))
+			}
+			sampled := []*big.Int{okM[0], okM[3], okM[4], okM[5]}
+			if !full {
+				sampled = sampled[1:2]
+			}
+			for i, M := range sampled {
+				cases = append(cases, k.encryptSampledCase(idr("encS", i), M, genRingValue(rr, M), rr))
+			}
+		}
 		// scalars around and beyond every natural width, on both paths; decrypt both results
 		rw := vh.NewRng(a.Seed, "C16", stream+"/paillier-wide", ki)
 		wide := k.pickWide(rw, thorough, 2)
